@@ -510,7 +510,14 @@ def match(ck, l, exp, got_ok, gv, errs):
         return False, "rejected (%r); expected %s" % ([(e[0], e[1]) for e in errs], k)
     gv = unwrap(gv)
     if k == "same":
-        return (True, "") if is_origin(gv, exp[1]) else (False, "value is not the input node %s: %s" % (exp[1], rep(gv)[:160]))
+        # an invisible group prints like its contents: the node itself or the expression inside the group(s) are the same tokens
+        cands = [exp[1]]
+        exprv = getattr(ck, "_exprv", None)
+        while exprv is not None and l.decisions.get(cands[-1] + "#d") is not None and exprv[l.decisions[cands[-1] + "#d"]] == "Group":
+            cands.append(cands[-1] + ".Group.0.expr" + BOX)
+        if any(is_origin(gv, c) for c in cands):
+            return True, ""
+        return False, "value is not the input node %s: %s" % (exp[1], rep(gv)[:160])
     if k == "parsed":
         return (True, "") if is_origin(gv, exp[1]) else (False, "value is not the parse of the quoted string (%s): %s" % (exp[1], rep(gv)[:160]))
     if k == "vec":
@@ -701,6 +708,7 @@ def target_job(ck, prog, natbin, tg, quick):
     ck.absorb(I, leaves, "entry_%s_meta" % tg)
     ck.check_exhaustive(I, leaves, tg)
     cnt = 0
+    ck._exprv = [v["name"] for v in prog.find_ty("syn::Expr").adt["variants"]]
     for l in leaves:
         ref = Ref(prog, l, tg)
         wit = Wit(ref, tg)
